@@ -275,7 +275,29 @@ fn ipfix_pkt(rng: &mut Rng, sets: &[Vec<u8>]) -> Vec<u8> {
 pub fn family(rng: &mut Rng, big: bool) -> (&'static str, Vec<Vec<u8>>) {
     let cap = if big { 65000usize } else { 3000 };
     let id = 256 + rng.below(4) as u16;
-    match rng.below(13) {
+    match rng.below(14) {
+        13 => {
+            // big templates in the cache, then a buffer packed with small messages of the same
+            // protocol: anything that costs "cache size" per message shows as a huge ratio
+            let v9 = rng.chance(1, 2);
+            let nf = rng.urange(cap / 16, cap / 4 - 8);
+            let fields: Vec<(u16, u16)> = (0..nf).map(|_| (1, 4)).collect();
+            let n = rng.urange(20, (cap / 24).max(21));
+            let mut v = Vec::new();
+            if v9 {
+                let t = v9_pkt(rng, &[v9_tpl_flowset(id, &fields)]);
+                for _ in 0..n {
+                    v.extend(v9_hdr(0, rng));
+                }
+                ("fam_big_cache_then_packed_messages", vec![t, v])
+            } else {
+                let t = ipfix_pkt(rng, &[ipfix_tpl_set(id, &fields)]);
+                for _ in 0..n {
+                    v.extend(ipfix_wrap(&[], rng, None));
+                }
+                ("fam_big_cache_then_packed_messages", vec![t, v])
+            }
+        }
         12 => {
             // many flowsets, each announcing a field count the bytes do not hold
             let n = rng.urange(2, cap / 8 - 4);
